@@ -958,6 +958,28 @@ pub fn cases(prop: &str, t: Tier, seed: u64) -> Vec<Case> {
                 c.l("q 1 iter");
                 out.push(c);
             }
+            // empty and default-constructed trees of every family, configuration and a few types
+            for (k, (b, pfs)) in QWT_CFGS.iter().enumerate() {
+                let ty = TYS[k % 6];
+                let mut c = Case::new("defaults");
+                c.tag("empty-trees");
+                c.l(format!("cfg {} {} {} * {}", b, *pfs as u8, ty.1, ty.0));
+                for fam in ["qwt", "hqwt", "wt", "hwt"] {
+                    for how in ["default", "new", "iter"] {
+                        c.l(format!("mk 0 {}:{}", fam, how));
+                        c.l("enc 0");
+                        c.l("wf 0");
+                        c.l("mk 1 serde 0");
+                        c.l("eq 0 1");
+                        c.l("enc 1");
+                        c.l("dump 1");
+                        for q in ["len", "get 0", "rank 0 0", "select 0 0", "iter"] {
+                            c.l(format!("q 1 {}", q));
+                        }
+                    }
+                }
+                out.push(c);
+            }
             // empty / default values of every type
             let mut c = Case::new("defaults");
             c.nontrivial = false;
@@ -1035,6 +1057,35 @@ pub fn cases(prop: &str, t: Tier, seed: u64) -> Vec<Case> {
                 tree_family_cases(r, t, "hqwt", &[], &ex, scale(t, 32, 200), &mut out);
                 tree_family_cases(r, t, "hwt", &[], &ex, scale(t, 16, 100), &mut out);
                 darray_cases(r, t, &["space 1"], scale(t, 16, 80), &mut out);
+            }
+            if prop == "C16" {
+                for i in 0..scale(t, 24, 120) {
+                    let mut c = Case::new("bvm");
+                    c.tag("bvm-space");
+                    c.nontrivial = true;
+                    c.l("cfg 256 0 8 * u8");
+                    let cap = *r.pick(&[0usize, 64, 1000, 4096, 100_000, 1 << 20, 1 << 24]);
+                    match i % 4 {
+                        0 => c.l(format!("mk 0 bvcap {}", cap)),
+                        1 => c.l(format!("mk 0 bvzeros {}", cap.min(1 << 20))),
+                        2 => c.l("mk 0 bvnew"),
+                        _ => {
+                            let n = r.range(1, 3000) as usize;
+                            let sh = r.below(7);
+                            c.l(format!("mk 0 bvbits:mut {} {}", n, join(&shaped_bits(r, n, sh))));
+                        }
+                    }
+                    c.l("space 0");
+                    let pushes = r.range(0, 5000) as usize;
+                    for _ in 0..(pushes / 40) {
+                        let l = r.range(1, 63) as usize;
+                        c.l(format!("op 0 append_bits {} {}", r.next() & ((1u64 << l) - 1), l));
+                    }
+                    c.l("space 0");
+                    c.l("op 0 shrink_to_fit");
+                    c.l("space 0");
+                    out.push(c);
+                }
             }
             rsq_cases(r, t, &["len"], &["space 0"], scale(t, 24, 150), &mut out);
             rsbin_cases(r, t, if prop == "C14" { &["rsw"] } else { &["rsw", "rsn"] }, &[], &["space 1", "space 0"], scale(t, 24, 150), &mut out);
